@@ -65,14 +65,16 @@ fn check(list: &[Horizontal], exact: bool, target: Scaled) -> Option<String> {
         let o = top(&st);
         if st[o] != 0 {
             if oi(b.glue_order) != o { return Some(format!("glue order {:?} but the highest order with NON-ZERO total stretch is {o} (totals {st:?})", b.glue_order)); }
-            if num.abs() * st[o].abs() != x * den.abs() { return Some(format!("glue ratio {num}/{den} does not make total stretch {} fill the excess {x}", st[o])); }
+            // natural width + ratio * total stretch == box width, WITH sign (a negative total stretch needs a negative ratio)
+            if num * st[o] != x * den { return Some(format!("glue ratio {num}/{den} does not make total stretch {} fill the excess {x}", st[o])); }
         } else if num != 0 { return Some(format!("no stretchability (totals {st:?}) but glue ratio {num}/{den} is set")); }
     } else {
         let o = top(&sh);
         if sh[o] != 0 {
             if oi(b.glue_order) != o { return Some(format!("glue order {:?} but the highest order with NON-ZERO total shrink is {o} (totals {sh:?})", b.glue_order)); }
             if o == 0 && sh[0] < -x { if num.abs() != den.abs() { return Some(format!("overfull box must shrink by exactly its shrinkability (ratio 1), got {num}/{den}")); } }
-            else if num.abs() * sh[o].abs() != (-x) * den.abs() { return Some(format!("glue ratio {num}/{den} does not make total shrink {} absorb the excess {x}", sh[o])); }
+            // the same equation for shrinking: natural width + ratio * total shrink == box width (the ratio is negative)
+            else if num * sh[o] != x * den { return Some(format!("glue ratio {num}/{den} does not make total shrink {} absorb the excess {x}", sh[o])); }
         } else if num != 0 { return Some(format!("no shrinkability (totals {sh:?}) but glue ratio {num}/{den} is set")); }
     }
     None
@@ -103,6 +105,39 @@ fn pack_lists() {
             let mut p = 0;
             loop { if p == len { break; } idx[p] += 1; if idx[p] < n { break; } idx[p] = 0; p += 1; }
             if p == len { break; }
+        }
+    }
+    // longer lists with values outside the templates: pseudo-random lists of 4..9 nodes
+    let mut state: u64 = 0x853C49E6748FEA9B;
+    let mut next = move || { state ^= state << 13; state ^= state >> 7; state ^= state << 17; state };
+    let orders = [GlueOrder::Normal, GlueOrder::Fil, GlueOrder::Fill, GlueOrder::Filll];
+    for _ in 0..60_000 {
+        let len = 4 + (next() % 6) as usize;
+        let mut list: Vec<Horizontal> = vec![];
+        for _ in 0..len {
+            let v = |next: &mut dyn FnMut() -> u64, lo: i64, hi: i64| -> Scaled { Scaled((lo + (next() % (hi - lo + 1) as u64) as i64) as i32) };
+            let node = match next() % 8 {
+                0 => Horizontal::Char(Char { char: if next() % 3 == 0 { 'z' } else { 'a' }, font: 0 }),
+                1 => Horizontal::Rule(Rule { height: v(&mut next, -300000, 900000), width: v(&mut next, 0, 2000000), depth: v(&mut next, -300000, 900000) }),
+                2 => Horizontal::Kern(Kern { width: v(&mut next, -500000, 900000), kind: if next() % 2 == 0 { KernKind::Normal } else { KernKind::Explicit } }),
+                3 => Horizontal::HBox(HBox { height: v(&mut next, 0, 900000), width: v(&mut next, 0, 2000000), depth: v(&mut next, 0, 500000), shift_amount: v(&mut next, -400000, 400000), list: vec![], glue_ratio: Default::default(), glue_order: GlueOrder::Normal }),
+                4 => Horizontal::Penalty(Penalty(50)),
+                _ => {
+                    let so = orders[(next() % 4) as usize]; let ho = orders[(next() % 4) as usize];
+                    let amount = |next: &mut dyn FnMut() -> u64| -> Scaled { match next() % 5 { 0 => Scaled(0), 1 => Scaled(-((next() % 300000) as i32)), _ => Scaled((next() % 600000) as i32) } };
+                    Horizontal::Glue(Glue { value: common::Glue { width: v(&mut next, -200000, 700000), stretch: amount(&mut next), stretch_order: so, shrink: amount(&mut next), shrink_order: ho }, kind: GlueKind::Normal })
+                }
+            };
+            list.push(node);
+        }
+        let exact = next() % 2 == 0;
+        let t = Scaled(((next() % 8000000) as i64 - 2000000) as i32);
+        cases += 1;
+        if let Some(why) = check(&list, exact, t) {
+            let names: Vec<String> = list.iter().map(|n| format!("{n:?}").chars().take(120).collect()).collect();
+            println!("WITNESS {{\"fn\": \"pack\", \"list\": \"{}\", \"pack_width\": \"{} {}sp\", \"observed\": \"{}\", \"expected\": \"TeX.2021.649-667\"}}",
+                names.join(" ; ").replace('"', "'"), if exact { "Exact" } else { "Additional" }, t.0, why.replace('"', "'"));
+            return;
         }
     }
     println!("STATS {{\"fn\": \"pack\", \"cases\": {cases}}}");
